@@ -178,8 +178,15 @@ func c40eRun(e *c40eEnv, cs c40eCase, rep *vReport) c40eResult {
 			res.key, res.fail = key, what
 		}
 	}
-	later := func(st *metadata.EtcdStore) {
-		b := c40eBroker{st, e}
+	// The later writes come from a broker-side store without the snapshot watcher: on a store
+	// WITH the watcher, CreateTopic followed at once by CreatePartitions races with the watcher's
+	// asynchronous refresh (the refresh can reload the pre-growth snapshot between
+	// metadata.CreatePartitions and persistSnapshot, and the growth is lost) - that race is real
+	// but it is C21's subject, and it made this comparison flaky.
+	later := func(_ *metadata.EtcdStore) {
+		w := metadata.VerifEtcdStoreNoWatch(e.cli, metadata.ClusterMetadata{})
+		_ = w.RefreshSnapshot(ctx)
+		b := c40eBroker{w, e}
 		for _, op := range cs.Later {
 			_ = c40Populate(ctx, b, op)
 		}
